@@ -7,16 +7,21 @@ import xt
 
 THEOREMS = [
     "XmlDiffModel.C16_main_reconstructs",
+    "XmlDiffModel.C16_main_reconstructs_nolines",
     "XmlDiffModel.C16_merge_reconstructs",
     "XmlDiffModel.C16_semantic_reconstructs",
+    "XmlDiffModel.C16_diff_and_clean",
     "XmlDiffModel.C16_join_keeps_both_texts",
 ]
 PARTIAL = {
     "C16_nonempty": "NOT proved: absence of empty segments (it is false of the vendored engine in line mode: known finding E1); decided per run by "
-    "the oracle. Proved for every pair of strings and every behaviour of diff_bisect (any split point or none - this covers the "
-    "deadline): diff_main, diff_cleanupMerge and diff_cleanupSemantic (with its lossless and overlap passes) reconstruct the first text "
-    "from equal+delete and the second from equal+insert; join keeps both texts. The realign step is modelled in XmlFormat and compared "
-    "with the code (U8/U9); its reconstruction up to open/close placeholders is checked by the oracle, not proved.",
+    "the oracle. Proved for every pair of strings (with line mode on: of at most 55 293 characters together, so that the line table "
+    "can be encoded as characters; without line mode: unbounded), every fuel and every behaviour of diff_bisect (any split point or "
+    "none - this covers the deadline): diff_main (prefix/suffix trimming, substring shortcut, half match, line mode with its re-diff "
+    "loop, bisection), diff_cleanupMerge (both passes) and diff_cleanupSemantic (elimination, lossless shift, overlap extraction) "
+    "reconstruct the first text from equal+delete and the second from equal+insert; join keeps both texts. The realign step is modelled "
+    "in XmlFormat and compared with the code (U8/U9); its reconstruction up to open/close placeholders is checked by the oracle, not "
+    "proved.",
 }
 LEAN_MODULES = ["XmlDiffModel.Props.C16"]
 SOURCES = ["formatting.XMLFormatter._realign_placeholders", "formatting.XMLFormatter._join_delete_insert", "formatting.XMLFormatter._make_diff_tags"]
@@ -169,7 +174,8 @@ def _chunk(seed, lo, hi, extra):
             for stage, dd in (("main", main), ("semantic", clean)):
                 p = recon_problem(dd, a, b)
                 if p:
-                    st.failures.append({"sig": f"C16/{p}/{stage}" + ("/line-mode" if linemode and p == "empty-segment" else ""), "segments": dd[:20], **desc})
+                    sig = f"C16/{p}/line-mode/{stage}" if linemode and p == "empty-segment" else f"C16/{p}/{stage}"
+                    st.failures.append({"sig": sig, "segments": dd[:20], **desc})
             if len(clean) >= 3:
                 st.nontriv((a, b))
                 st.sample({"text1": a[:80], "text2": b[:80], "segments": clean[:8]}, 3)
